@@ -31,6 +31,8 @@ pub enum Prep {
     Masked,
     /// the result of an addition that wraps around 2^n (or not): a += b with a + b = bits (mod 2^n)
     Summed,
+    /// zeros(n) |= &y where y, of another kind, holds the bits followed by three ones above n
+    Ored(Kind),
 }
 
 pub const PREPS: [Prep; 11] = [
@@ -61,11 +63,15 @@ impl Prep {
             Prep::Conv(k) => format!("conv:{}", k.name()),
             Prep::Masked => "masked".into(),
             Prep::Summed => "summed".into(),
+            Prep::Ored(k) => format!("ored:{}", k.name()),
         }
     }
     pub fn from_name(s: &str) -> Option<Prep> {
         if let Some(k) = s.strip_prefix("conv:") {
             return Kind::from_name(k).map(Prep::Conv);
+        }
+        if let Some(k) = s.strip_prefix("ored:") {
+            return Kind::from_name(k).map(Prep::Ored);
         }
         PREPS.iter().copied().find(|p| p.name() == s)
     }
@@ -159,6 +165,20 @@ fn try_make(kind: Kind, bits: &[u8], prep: Prep) -> Option<AnyBv> {
             let a = v.wrapping_sub(b) & mask;
             let mut x = AnyBv::fresh(kind, &int_bits(a, n));
             let o = crate::exec::exec_keep(&mut x, &crate::exec::Y::Int(IntTy::U64, b), "add", "ar", &crate::out::Args::default());
+            if o != crate::out::Out::Unit {
+                return None;
+            }
+            Some(x)
+        }
+        Prep::Ored(from) => {
+            if from == kind || !from.admits(n + 3) {
+                return None;
+            }
+            let mut yb = bits.to_vec();
+            yb.extend([1, 1, 1]);
+            let y = AnyBv::fresh(from, &yb);
+            let mut x = AnyBv::fresh(kind, &vec![0u8; n]);
+            let o = crate::exec::exec_keep(&mut x, &crate::exec::Y::Vec(y), if n % 2 == 0 { "or" } else { "xor" }, "ar", &crate::out::Args::default());
             if o != crate::out::Out::Unit {
                 return None;
             }
